@@ -40,6 +40,7 @@ package main
 
 import (
 	"fmt"
+	"go/constant"
 	"go/token"
 	"math/big"
 	"sort"
@@ -76,6 +77,7 @@ func checkC04(ctx *Ctx, r *Report, tier string) {
 	checkEveryLineConverted(ctx, r)
 	checkDistanceSearchExits(ctx, r)
 	checkBuildKeepsNoSharedState(ctx, r)
+	checkWindingTraversalTests(ctx, r)
 }
 
 var windingConvention = true // lower endpoint closed (set by W1 on the real function)
@@ -829,4 +831,71 @@ func checkBuildKeepsNoSharedState(ctx *Ctx, r *Report) {
 		r.check("W11", name+"|construction-writes-no-package-level-state", fn.Pos(), len(bad) == 0, "scratch data shared between two constructions corrupts both: "+strings.Join(bad, "; "))
 	}
 	r.floor("W11", 3)
+}
+
+// checkWindingTraversalTests (W12): the quadtree winding search decides where to go by the signs
+// of the query point relative to the node's split lines and by nil tests, nothing else. The
+// crossing rule is exact only because every node whose box the ray can meet is visited: a cut-off
+// on a rounded extent (centre ± half side, the half side taken from one axis) disagrees by an
+// ulp with the box the edges were clipped against, and a point exactly on a split line loses
+// the node that owns its crossings. Decided on the SSA form: every branch of qtNode.winding is a
+// comparison with nil or with the constant 0, a boolean combination of such, or a loop test.
+func checkWindingTraversalTests(ctx *Ctx, r *Report) {
+	fn := ctx.ssaFunc("sdf", "(*qtNode).winding")
+	if fn == nil {
+		r.undecided("W12", "qtNode.winding", 0, "not found")
+		return
+	}
+	var plain func(v ssa.Value, seen map[ssa.Value]bool) bool
+	plain = func(v ssa.Value, seen map[ssa.Value]bool) bool {
+		if seen[v] {
+			return true
+		}
+		seen[v] = true
+		switch x := v.(type) {
+		case *ssa.Const:
+			return true
+		case *ssa.UnOp:
+			return x.Op == token.NOT && plain(x.X, seen)
+		case *ssa.Phi:
+			for _, e := range x.Edges {
+				if !plain(e, seen) {
+					return false
+				}
+			}
+			return true
+		case *ssa.BinOp:
+			switch x.Op {
+			case token.LSS, token.LEQ, token.GTR, token.GEQ, token.EQL, token.NEQ:
+				for _, side := range []ssa.Value{x.X, x.Y} {
+					if k, ok := side.(*ssa.Const); ok {
+						if k.IsNil() {
+							return true
+						}
+						if k.Value != nil && (k.Value.Kind() == constant.Int || k.Value.Kind() == constant.Float) && constant.Sign(k.Value) == 0 {
+							return true
+						}
+					}
+				}
+			}
+		}
+		return false
+	}
+	n, bad := 0, ""
+	loops := loopDescs(fn, topoAll(fn))
+	for _, b := range fn.Blocks {
+		iff, ok := b.Instrs[len(b.Instrs)-1].(*ssa.If)
+		if !ok {
+			continue
+		}
+		if ld := loops[b]; ld != nil && ld.header == b {
+			continue // the test of the loop over the leaf's segments
+		}
+		n++
+		if !plain(iff.Cond, map[ssa.Value]bool{}) {
+			bad += " the branch at " + ctx.pos(branchPos(b, iff)) + " is neither a nil test nor a sign test;"
+		}
+	}
+	r.check("W12", "qtNode.winding|traversal-decided-by-signs-and-nil-tests-only", fn.Pos(), bad == "" && n >= 3, fmt.Sprintf("%d branches;%s", n, bad))
+	r.floor("W12", 1)
 }
